@@ -802,40 +802,79 @@ func (b *Builder) Finish() error {
 		}
 	}
 
-	for tmp, final := range artifactPaths {
-		if err := os.Rename(tmp, final); err != nil {
-			b.buildError = err
-			continue
-		}
+	// IndexState decides from the first shard and its metadata sidecar whether
+	// the index is up to date. Install those two files last, after everything
+	// else is in place and the left-over old files are gone: an install that is
+	// interrupted half-way is then never mistaken for an up-to-date index by
+	// the next incremental run.
+	first := b.opts.shardName(0)
+	isFirst := func(p string) bool { return p == first || p == first+".meta" }
+	notFirst := func(p string) bool { return !isFirst(p) }
 
-		delete(toDelete, final)
+	// install renames the artifacts selected by pick into place.
+	install := func(pick func(final string) bool) {
+		for tmp, final := range artifactPaths {
+			if !pick(final) {
+				continue
+			}
+			if err := os.Rename(tmp, final); err != nil {
+				b.buildError = err
+				continue
+			}
+			delete(toDelete, final)
+		}
 	}
 
-	b.finishedShards = map[string]string{}
+	// removeOld removes the left-over old files selected by pick.
+	removeOld := func(pick func(p string) bool) {
+		for p := range toDelete {
+			if !pick(p) {
+				continue
+			}
+			// Don't delete compound shards, set tombstones instead.
+			if b.opts.ShardMerging && strings.HasPrefix(filepath.Base(p), "compound-") {
+				if !strings.HasSuffix(p, ".zoekt") {
+					continue
+				}
+				if err := SetTombstone(p, b.opts.RepositoryDescription.ID); err != nil {
+					b.buildError = err
+				}
+				continue
+			}
+			log.Printf("removing old shard file: %s", p)
+			if err := os.Remove(p); err != nil {
+				b.buildError = err
+			}
+		}
+	}
+
+	install(notFirst)
 
 	if b.buildError != nil {
 		// Not every new shard could be moved into place. Keep the old shards:
 		// the ones that were not replaced are still in toDelete, and removing
 		// them would make the repository disappear from the index.
+		b.finishedShards = map[string]string{}
 		return b.buildError
 	}
 
-	for p := range toDelete {
-		// Don't delete compound shards, set tombstones instead.
-		if b.opts.ShardMerging && strings.HasPrefix(filepath.Base(p), "compound-") {
-			if !strings.HasSuffix(p, ".zoekt") {
-				continue
-			}
-			if err := SetTombstone(p, b.opts.RepositoryDescription.ID); err != nil {
-				b.buildError = err
-			}
-			continue
-		}
-		log.Printf("removing old shard file: %s", p)
-		if err := os.Remove(p); err != nil {
-			b.buildError = err
-		}
+	removeOld(notFirst)
+
+	if b.buildError == nil {
+		install(func(final string) bool { return final == first })
 	}
+	if b.buildError == nil {
+		install(func(final string) bool { return final == first+".meta" })
+	}
+
+	b.finishedShards = map[string]string{}
+
+	if b.buildError != nil {
+		return b.buildError
+	}
+
+	// A sidecar of the first shard that the new index does not have.
+	removeOld(isFirst)
 
 	return b.buildError
 }
